@@ -378,6 +378,19 @@ def write_checked(F, rep):
                        "buffer is written when the value is dropped, where an error cannot be reported - the compiler exits 0 although "
                        "nothing reached a full or closed output" % last(f2["_path"], 2), line_of(c))
     rep.ob("WRITE-CHECKED", "buffering-writers", True, "%d buffering writers on the output path" % nb, sites=nb)
+    # success is decided by the operations every writable path supports: create / write / flush.  `sync_all` / `sync_data` (fsync)
+    # fail with EINVAL on pipes, FIFOs and character devices (`-o /dev/null`, `-o /dev/stdout | ..`) *after* the whole program has
+    # been written - propagating that makes an accepted program exit 1
+    syncs = []
+    for f2 in list(F.own_fns(["sylt"])) + list(F.own_fns(["sylt_compiler"])):
+        for c in nodes(fn_body(f2), "MethodCall"):
+            if c["m"] in ("sync_all", "sync_data") and "fs::File" in (c.get("recv_ty") or ""):
+                syncs.append((f2, c))
+    rep.ob("WRITE-CHECKED", "no-fsync-on-the-output", not syncs,
+           "the output is never fsync'ed: every failure that is reported is one of create / write / flush" if not syncs else
+           "%s calls `%s()` on the output file: fsync fails with EINVAL on pipes, FIFOs and character devices, after the program has "
+           "been written completely - `sylt -o /dev/null ok.sy` reports an IO error and exits 1" % (last(syncs[0][0]["_path"], 2), syncs[0][1]["m"]),
+           line_of(syncs[0][1]) if syncs else None)
     # the emitter's result reaches the driver: lua::generate -> Compiler::compile -> compile()
     gen = F.fn("sylt_compiler::lua::generate")
     comp = F.fn("sylt_compiler::Compiler::compile")
